@@ -8,6 +8,7 @@ from vlib import *
 import pyed
 
 
+THOROUGH_ROUNDS = 6      # repetitions of the conformance part in the thorough tier (fresh random draws each)
 def gen(rng, quick):
     ops = [{"op": "info"}, {"op": "ff.constants"}]
     N = 1 if quick else 8
